@@ -2,7 +2,7 @@
    refutation witness); Print Assumptions follows each. *)
 From Coq Require Import List NArith ZArith Bool.
 Import ListNotations.
-From VF Require Import C15.Model C15.Proofs.
+From VF Require Import C15.Model C15.Proofs C15.Corr C15.ProofsConc.
 Local Open Scope N_scope.
 
 (* FULL STATEMENT (repaired code).  For every history of add / status / pickup operations of any
@@ -57,6 +57,18 @@ Print Assumptions independent.
 Theorem never_panics : forall ops s, existsb is_panic (snd (run Fixed s ops)) = false.
 Proof. exact run_no_panic. Qed.
 Print Assumptions never_panics.
+
+(* FORCED OVERLAPS.  The harness parks one operation inside a store call (or inside its outbound send) and
+   starts a second one meanwhile; Corr.check_conc accepts the record only if what the real service was seen
+   to do equals one of the two sequential orders of the model.  This theorem says what that acceptance
+   means: the observed outputs of the whole history (prefix, then the two overlapped operations) ARE the
+   model's outputs for one sequential order — so `conservation` above speaks about them. *)
+Theorem overlap_is_sequential : forall k : conc,
+  check_conc k = true ->
+  snd (run Fixed [] (k_pre k ++ [k_a k; k_b k])) = map fst (k_pre_obs k) ++ [k_xa k; k_xb k] \/
+  snd (run Fixed [] (k_pre k ++ [k_b k; k_a k])) = map fst (k_pre_obs k) ++ [k_xb k; k_xa k].
+Proof. exact overlap_is_sequential. Qed.
+Print Assumptions overlap_is_sequential.
 
 (* HISTORICAL REFUTATIONS: the code as found (before the fix: commits) violates the property.
    The witnesses are kept in corpus/C15 and replayed on the implementation on every run. *)
